@@ -77,6 +77,9 @@ var knownBadCorpus = []knownBad{
 	{ID: "KB17-field-name-collision", Switch: "+name.collide", Stage: "go-compile", Match: `redeclared|duplicate field`, Formats: labFormats,
 		What: "foo_bar and fooBar in one struct map to the same Go identifier",
 		Src:  `(defs "Root" ("Root" (struct (field "foo_bar" (bool) true false -) (field "fooBar" (bool) true false -))))`},
+	{ID: "KB19-cue-default-on-constrained-named-number", Switch: "+def.scalar.constrained", Stage: "load", Match: `strconv.Parse(Int|Float)`, Formats: []string{"cue"},
+		What: "a: #T | *72 with #T: int8 & <=83: the bound of the referenced definition is parsed together with the rest of the file",
+		Src:  `(defs "Root" ("Root" (struct (field "a" (ref "T") false false (n "72")))) ("T" (int 8 true - 83)))`},
 	{ID: "KB18-cue-nullable-int-enum", Switch: "degrade=0", Stage: "load", Match: `enums may only be generated`, Formats: []string{"cue"},
 		What: "null | 1 | 2 @cog(kind=\"enum\") is rejected",
 		Text: "package %PKG%\n\n#Root: {\n\ta?: null | 1 | 2 @cog(kind=\"enum\",memberNames=\"N1|N2\")\n}\n"},
